@@ -459,6 +459,43 @@ where
 }
 
 /// `deserialize_and_validate_commit` with `n` blind generators of the blind interface
+/// the public helper `prepare_parameters` of the blind interface: scalars then generators
+pub fn prepparams<CS: BbsCiphersuite>(
+    h: &mut H,
+    msgs: Option<&[Vec<u8>]>,
+    cmsgs: Option<&[Vec<u8>]>,
+    gn: usize,
+    bgn: usize,
+    blind: Option<&[u8; 32]>,
+    api: Option<&[u8]>,
+) -> Out<(Vec<Scalar>, Vec<G1Projective>)>
+where
+    CS::Expander: for<'a> ExpandMsg<'a>,
+{
+    let bf = blind.map(|b| BlindFactor::from_bytes(b).expect("blind factor"));
+    let out = guard(|| {
+        let (ms, gens) = zkryptium::bbsplus::blind::prepare_parameters::<CS>(msgs, cmsgs, gn, bgn, bf.as_ref(), api)?;
+        Ok((ms.iter().map(|m| m.value).collect::<Vec<Scalar>>(), gens.values.clone()))
+    });
+    log(
+        h,
+        "prepparams",
+        &[olhx(msgs), olhx(cmsgs), gn.to_string(), bgn.to_string(), ohx(blind.map(|b| &b[..])), ohx(api)],
+        &out,
+        |(ms, gs)| {
+            let mut v = Vec::new();
+            for m in ms {
+                v.extend_from_slice(&m.to_be_bytes());
+            }
+            for g in gs {
+                v.extend_from_slice(&g1hex(g));
+            }
+            v
+        },
+    );
+    out
+}
+
 pub fn devc<CS: BbsCiphersuite>(h: &mut H, cwp: Option<&[u8]>, n: usize) -> Out<G1Projective>
 where
     CS::Expander: for<'a> ExpandMsg<'a>,
@@ -720,6 +757,10 @@ where
         }
         "devc" => {
             devc::<CS>(h, unohx(a[0]).as_deref(), a[1].parse().unwrap());
+        }
+        "prepparams" => {
+            let b = unohx(a[4]).map(|v| arr::<32>(&v));
+            prepparams::<CS>(h, unolhx(a[0]).as_deref(), unolhx(a[1]).as_deref(), a[2].parse().unwrap(), a[3].parse().unwrap(), b.as_ref(), unohx(a[5]).as_deref());
         }
         _ if op.starts_with("dec.") => {
             dec(h, &op[4..], &unhx(a[0]));
